@@ -192,6 +192,7 @@ int main(int argc, char **argv)
                 std::cout << "{\"ev\":\"failure\",\"atoms\":[" << a->get_id() << "]}" << std::endl;
                 cl.executing.erase(a);
                 ex.failure({a});
+                idle = 0; // the repaired plan gets its ticks: a history never stops right after a failure
             }
         }
         catch (const execution_exception &e)
